@@ -1079,7 +1079,7 @@ func (g *gen) idiom(d int, top bool) []stmtText {
 	e := func() string { return g.w(g.expr(kAny, d-1), pAssign) }
 	c := func() string { return g.condTest(d - 1).s }
 	cp := func() string { return g.w(g.condTest(d-1), pBitOr) }
-	switch r.Intn(45) {
+	switch r.Intn(47) {
 	case 33, 34: // several var declarations in one function (hoisting) with a destructuring declarator after initialised ones:
 		// the pattern must not be moved in front of the initialisers it follows (K121)
 		a, b, z := g.fresh("v"), g.fresh("v"), g.fresh("v")
@@ -1108,6 +1108,12 @@ func (g *gen) idiom(d int, top bool) []stmtText {
 		default:
 			return one("lb:{"+decl+"}"+h()+"(3)", true)
 		}
+	case 45, 46: // regular expressions whose escapes matter: \, inside braces, an escaped dash after [ inside a class (K127)
+		g.kindHit("idiom:regexp-escapes-that-matter")
+		type rt struct{ re, subj string }
+		t := []rt{{`/a{1\,2}/`, "aa"}, {`/a{1\,2}/`, "a{1,2}"}, {`/[a[\-z]/`, "b"}, {`/[a[\-z]/`, "-"}, {`/[[\-\]]/`, "\\\\"}, {`/[[\-\]]/`, "-"},
+			{`/^a{2\,}$/`, "aaa"}, {`/[x\-z]/`, "y"}, {`/[\-z]/`, "-"}, {`/[a\-]/`, "-"}, {`/[\^a]/`, "b"}, {`/[^\-a]/`, "-"}, {`/[.\-\/]/`, "-"}, {`/x\-y/`, "x-y"}}[r.Intn(14)]
+		return one(h()+"("+t.re+".test(\""+t.subj+"\"),String("+t.re+".exec(\""+t.subj+"\")))", true)
 	case 43, 44: // class fields with numeric / string names after static (K126)
 		g.kindHit("idiom:static-field-names")
 		if g.level < 2022 {
